@@ -208,6 +208,17 @@ func checkC02(c *Ctx) {
 	c.Rule("C02-R23", "with no escape timeout expiring in between: the escape timer is armed only after the scan of what is buffered has returned (armed before, it fires while the scan waits for room in the event queue and then competes with the chunk that completes the sequence)")
 	c.Expect("C02-R23", 1)
 	checkTimerArmedAfterScan(c, p, "C02-R23")
+	c.Rule("C02-R24", "decoding is independent of how the bytes are split over reads, also over more than two: every re-arming of the escape timer is for the constant wait (= C03-R14)")
+	c.Expect("C02-R24", 1)
+	checkEscapeWaitPerChunk(c, p, "C02-R24")
+	c.Rule("C02-R26", "the start of a multi-byte character is waited for whatever follows it in the buffer: parseRune answers 'not a character' only before it asks the decoder (= C11-R27)")
+	c.Expect("C02-R26", 1)
+	checkNotMineOnlyBeforeTheDecoder(c, p, "C02-R26")
+	c.Rule("C02-R25", "a character split over two reads is one character in every charset: no unicode/utf8 function judges the undecoded input (utf8.FullRune says 'complete' for a lead byte of a legacy double-byte charset; = C11-R6)")
+	c.Expect("C02-R25", 1)
+	if pr := p.Fn("tcell:(*tScreen).parseRune"); pr != nil {
+		checkRawInputNotUTF8(c, p, pr, "C02-R25")
+	}
 	c.Rule("C02-R17", "a pending Alt prefix outlives the scan that found it: the flag is a field of the screen, cleared only where it is applied to a key (a scan that ends waiting for more input must not forget it: ESC ESC | [ A is Alt+Up however it is chunked; = C03-R6)")
 	c.Expect("C02-R17", 3)
 	c.asRule("C03-R6", "C02-R17", func() { c03AltPrefix(c, p) })
